@@ -22,6 +22,10 @@ type c06Batch struct {
 	InSession bool
 	Seed      int64
 	UDP       bool
+	// PreHandshake: 0 none; before the session-less commands the connection
+	// goes through a handshake that 1 succeeds, 2 fails on RAKP 2 (password),
+	// 3 is refused in the Open Session Response, 4 is refused in RAKP 2 (user)
+	PreHandshake int `json:",omitempty"`
 }
 
 type c06HS struct {
@@ -65,6 +69,9 @@ func init() {
 				}
 			}
 			cs = append(cs, ev.MkCase("batch", c06Batch{Kind: "random", From: 0, To: 60, InSession: true, Seed: seed, UDP: true}))
+			for ph := 1; ph <= 4; ph++ {
+				cs = append(cs, ev.MkCase("batch", c06Batch{Kind: "random", From: 0, To: 400, Seed: seed + int64(ph), PreHandshake: ph}))
+			}
 			return cs
 		},
 		Exec: c06Exec,
@@ -83,7 +90,10 @@ type c06Conn struct {
 	// busyFirst makes the BMC answer node busy to the first attempt of the
 	// current command, so that the retransmission is parsed as well
 	busyFirst bool
-	attempt   int
+	// strayFirst makes the first attempt's reply a valid response to another
+	// command (a late duplicate), so that the retransmission is parsed too
+	strayFirst bool
+	attempt    int
 }
 
 func c06Open(run *ev.Run, b c06Batch, cs ev.Case) *c06Conn {
@@ -101,6 +111,20 @@ func c06Open(run *ev.Run, b c06Batch, cs ev.Case) *c06Conn {
 	} else {
 		e := NewEnv(cfg, memtr.Window)
 		c.b, st = e.BMC, e.ST
+		e.Filter = func(n int, req, reply []byte) ([]byte, error) {
+			if !c.strayFirst || c.attempt != 1 || c.cur == nil {
+				return reply, nil
+			}
+			last := c.b.Last()
+			if last == nil {
+				return reply, nil
+			}
+			m := refbmc.BuildRsp(0x81, 0x07, 0, 0x20, last.RqSeq, 0, 0x3e, 0, []byte{0xde, 0xad})
+			if se := c.b.Sess; se != nil && se.Active && last.Kind == "session-ipmi" {
+				return se.Wrap(m, refbmc.WrapOpts{}), nil
+			}
+			return refbmc.RMCP(refbmc.SessHdr(0, 0, 0, m)), nil
+		}
 	}
 	c.b.Handler = func(evn *refbmc.Event) (byte, []byte, bool) {
 		if c.cur == nil {
@@ -121,6 +145,31 @@ func c06Open(run *ev.Run, b c06Batch, cs ev.Case) *c06Conn {
 		return 0, c.cur.OkBody, true
 	}
 	c.conn = st
+	if b.PreHandshake > 0 {
+		// the connection has been through a handshake before the session-less commands under test
+		ctx, cancel := bg(10 * time.Second)
+		opts := &bmc.V2SessionOpts{SessionOpts: bmc.SessionOpts{Username: cfg.Username, Password: cfg.Password, MaxPrivilegeLevel: ipmi.PrivilegeLevelAdministrator},
+			CipherSuites: []ipmi.CipherSuite{libSuite(stdSuites()[int(b.Seed)%9])}}
+		switch b.PreHandshake {
+		case 2:
+			opts.Password = []byte("not the password") // RAKP 2 does not verify
+		case 3:
+			opts.CipherSuites = []ipmi.CipherSuite{{AuthenticationAlgorithm: 1, IntegrityAlgorithm: 1, ConfidentialityAlgorithm: 2}} // refused in the Open Session Response
+		case 4:
+			opts.Username = "nobody" // RAKP 2 carries an error status
+		}
+		s, err := st.NewV2Session(ctx, opts)
+		cancel()
+		if (err == nil) != (b.PreHandshake == 1) {
+			run.Violation("C06:handshake-failed", fmt.Sprintf("preliminary handshake %d: err=%v", b.PreHandshake, err), cs, nil)
+			return nil
+		}
+		if s != nil && b.Seed%2 == 0 {
+			c2, cancel2 := bg(10 * time.Second)
+			s.Close(c2)
+			cancel2()
+		}
+	}
 	if b.InSession {
 		ctx, cancel := bg(10 * time.Second)
 		defer cancel()
@@ -161,7 +210,7 @@ func (c *c06Conn) send(run *ev.Run, g genCmd, cs ev.Case) bool {
 		return true
 	}
 	wantN := 1
-	if c.busyFirst {
+	if c.busyFirst || c.strayFirst {
 		wantN = 2
 	}
 	if len(evs) != wantN {
@@ -478,6 +527,7 @@ func c06Exec(run *ev.Run, cs ev.Case) {
 			}
 			g := genCommand(r, k, r.Intn(201))
 			c.busyFirst = i%5 == 0 && !g.SerFail && !b.UDP
+			c.strayFirst = i%7 == 3 && !c.busyFirst && !g.SerFail && !b.UDP
 			if !do(g, "random") {
 				return
 			}
